@@ -43,7 +43,8 @@
  * at most three (delivery at its first END, the error for the missing start,
  * the source end).  An input for which the budget does not suffice is not
  * judged (never a false alarm). */
-#if SOF
+#ifdef MAXCALLS
+#elif SOF
 #define MAXCALLS (NG + 2 * NF + 2)
 #else
 #define MAXCALLS (NG + NF + 2)
